@@ -12,8 +12,8 @@ struct PinDef { double px, py, ax, ay; ConnDirFlags side; const char *name; };  
 static const PinDef DEFS[6] = {{ATTACH_POS_LEFT, ATTACH_POS_CENTRE, ATTACH_POS_MIN_OFFSET, 10, ConnDirLeft, "L"}, {ATTACH_POS_RIGHT, ATTACH_POS_CENTRE, ATTACH_POS_MAX_OFFSET, 10, ConnDirRight, "R"},
                                {ATTACH_POS_CENTRE, ATTACH_POS_TOP, 10, ATTACH_POS_MIN_OFFSET, ConnDirUp, "T"}, {ATTACH_POS_CENTRE, ATTACH_POS_BOTTOM, 10, ATTACH_POS_MAX_OFFSET, ConnDirDown, "B"},
                                {ATTACH_POS_RIGHT, 0.25, ATTACH_POS_MAX_OFFSET, 5, ConnDirRight, "R1"}, {ATTACH_POS_RIGHT, 0.75, ATTACH_POS_MAX_OFFSET, 15, ConnDirRight, "R2"}};
-struct Cfg { bool ortho; double inside; bool proportional; int dirMode; int excl; int mv; int cps; bool toJunction; int heap; };   // dirMode 0 automatic(ConnDirNone) 1 explicit side 2 All; excl 0 default 1 forced exclusive 2 forced shared
-static string cfg_str(const Cfg &c) { return mcx::fmt("%s insideOffset=%g %s dirs=%s exclusive=%s then=%s checkpoints=%d far_end=%s heap=%d", c.ortho ? "orthogonal" : "polyline", c.inside, c.proportional ? "proportional" : "absolute", c.dirMode == 0 ? "automatic" : c.dirMode == 1 ? "side" : "all", c.excl == 0 ? "default" : c.excl == 1 ? "forced" : "shared", c.mv == 0 ? "nothing" : c.mv == 1 ? "translate" : "resize", c.cps, c.toJunction ? "junction" : "point", c.heap); }
+struct Cfg { bool ortho; double inside; bool proportional; int dirMode; int excl; int mv; int cps; bool toJunction; int heap; bool early = false; };   // early: the move/resize (and a junction move) is issued BEFORE the first processTransaction   // dirMode 0 automatic(ConnDirNone) 1 explicit side 2 All; excl 0 default 1 forced exclusive 2 forced shared
+static string cfg_str(const Cfg &c) { return mcx::fmt("%s insideOffset=%g %s dirs=%s exclusive=%s then=%s checkpoints=%d far_end=%s heap=%d", c.ortho ? "orthogonal" : "polyline", c.inside, c.proportional ? "proportional" : "absolute", c.dirMode == 0 ? "automatic" : c.dirMode == 1 ? "side" : "all", c.excl == 0 ? "default" : c.excl == 1 ? "forced" : "shared", c.mv == 0 ? "nothing" : c.mv == 1 ? "translate" : "resize", c.cps, c.toJunction ? "junction" : "point", c.heap) + (c.early ? " move-before-first-transaction" : ""); }
 
 static bool onSeg(Point a, Point b, Point p) { return fabs((b.x - a.x) * (p.y - a.y) - (p.x - a.x) * (b.y - a.y)) < 1e-6 && p.x >= min(a.x, b.x) - 1e-6 && p.x <= max(a.x, b.x) + 1e-6 && p.y >= min(a.y, b.y) - 1e-6 && p.y <= max(a.y, b.y) + 1e-6; }
 
@@ -42,9 +42,11 @@ static void run(unsigned pm, int k, const vector<pair<int, int>> &targets, const
             if (c.cps && i == 0) { vector<Checkpoint> v; cpl[i].push_back(Point(4.5 * S, 4.5 * S)); if (c.cps > 1) cpl[i].push_back(Point(-0.5 * S, 4.5 * S)); if (i % 2) reverse(cpl[i].begin(), cpl[i].end()); for (auto &p : cpl[i]) v.push_back(Checkpoint(p)); cn->setRoutingCheckpoints(v); }
             cs.push_back(cn);
         }
-        r->processTransaction(); nTrans++;
+        if (!c.early) { r->processTransaction(); nTrans++; }
+        else for (auto j : js) if (j) r->moveJunction(j, 5, 0);   // junctions are moved in the same (first) transaction too
         if (c.mv == 1) { r->moveShape(sh, 0.25 * S, 0); r->processTransaction(); nTrans++; }
         else if (c.mv == 2) { Rectangle nr(Point(1.25 * S, 1.5 * S), Point(2.75 * S, 2.25 * S)); r->moveShape(sh, nr); r->processTransaction(); nTrans++; }
+        else if (c.early) { r->processTransaction(); nTrans++; }
         if (k <= npins || !allExclusive) {
             nontriv = npins > 1;
             multiset<pair<double, double>> used;
@@ -104,6 +106,7 @@ int main(int argc, char **argv) {
         phase({(bool)ortho, 3, true, 1, 0, 1, 1, false, heap}, few, 1, 1);
         phase({(bool)ortho, 3, true, 1, 0, 0, 2, false, heap}, few, 1, 2);
         phase({(bool)ortho, 0, true, 1, 0, 0, 0, false, heap}, few, 2, 2);   // pins exactly on the boundary: known-finding class
+        for (int mv = 1; mv < 3; mv++) { Cfg e{(bool)ortho, 3, true, 1, 0, mv, 0, false, heap}; e.early = true; phase(e, few, 2, 2); Cfg ej{(bool)ortho, 3, true, 1, 0, mv, 0, true, heap}; ej.early = true; phase(ej, few, 2, 3); }
     }
     if (TH) for (int ortho = 0; ortho < 2; ortho++) for (int heap = 1; heap <= 2; heap++) for (int prop = 0; prop < 2; prop++) for (int dm = 0; dm < 3; dm++) for (int ex = 0; ex < 3; ex++) for (int mv = 0; mv < 3; mv++) for (int tj = 0; tj < 2; tj++) {
         phase({(bool)ortho, 3, (bool)prop, dm, ex, mv, 0, (bool)tj, heap}, all, 2, 2); if (prop && dm == 1 && ex == 0) phase({(bool)ortho, 3, true, 1, 0, mv, 2, (bool)tj, heap}, few, 2, 2); }
